@@ -147,7 +147,9 @@ def run(tier="quick", seed=0):
             return '{"jsonrpc": "2.0", "id": 1, "result": null}'
     targets = [("http://h:1", "/"), ("http://h:1/", "/"), ("http://h:1/a/b", "/a/b"), ("http://h:1/a?x=1&y=%20z", "/a?x=1&y=%20z"),
                ("http://h:1?q=1", "/?q=1"), ("https://h/rpc%2Fx?a=b", "/rpc%2Fx?a=b"), ("unix+http://%2Ftmp%2Fs.sock", "/"),
-               ("unix+http://%2Ftmp%2Fs.sock?k=v", "/?k=v"), ("http://h/p?", "/p")]
+               ("unix+http://%2Ftmp%2Fs.sock?k=v", "/?k=v"), ("http://h/p?", "/p"),
+               ("http://h/api:v1/x@y", "/api:v1/x@y"), ("http://h/a+b,c=d/(e)", "/a+b,c=d/(e)"), ("http://h/~user/$x!*'", "/~user/$x!*'"),
+               ("http://h/%7Euser/%41", "/%7Euser/%41"), ("http://h/a//b/./c", "/a//b/./c"), ("http://user:pw@h:8/p/q?x=%3D&y", "/p/q?x=%3D&y")]
     for url, want in targets:
         n += 1
         del seen[:]
